@@ -734,7 +734,9 @@ func c17ExecFile(f c17File) (detail string) {
 
 func TestC17_Placeholders(t *testing.T) {
 	lit := rapid.StringMatching(`[a-zA-Z0-9_.:/@-]{1,6}`)
-	val := rapid.OneOf(rapid.StringMatching(`[a-zA-Z][a-zA-Z0-9_.:/@ -]{0,10}[a-zA-Z0-9]`), rapid.Just("v"))
+	// values are taken verbatim - also passwords and paths with a dollar sign in them
+	val := rapid.OneOf(rapid.StringMatching(`[a-zA-Z][a-zA-Z0-9_.:/@ -]{0,10}[a-zA-Z0-9]`), rapid.Just("v"),
+		rapid.SampledFrom([]string{"S3cr$tKey", "pa$$word", "a$1b", "x${y}z", "$", "end$", "$HOME/ca.pem", "p$0$$1"}))
 	rapid.Check(t, func(rt *rapid.T) {
 		f := c17File{}
 		nv := rapid.IntRange(0, 3).Draw(rt, "nvars")
@@ -773,7 +775,7 @@ func TestC17_Placeholders(t *testing.T) {
 					if p.Var == 0 && strings.ContainsAny(p.Lit, ":@") {
 						ok = false
 					}
-					if p.Var != 0 && f.Values[p.Var-1] != nil && (*f.Values[p.Var-1] == "" || strings.ContainsAny(*f.Values[p.Var-1], ":@ ")) {
+					if p.Var != 0 && f.Values[p.Var-1] != nil && (*f.Values[p.Var-1] == "" || strings.ContainsAny(*f.Values[p.Var-1], ":@ $")) {
 						ok = false
 					}
 				}
